@@ -27,3 +27,7 @@ def fill(claim, not_yet):
 		'For every entry with a span: no CPython token is cut, the name/number/string/comment tokens inside are exactly the node\'s own tokens, children lie inside parents, identically on the tree restored from the cache encoding; the line, quoted text and caret range printed by ErrorRender for raised errors are compared with the region and with the text of the node\'s first/last token.',
 		'Trusted: tokenize (3.13). The self-hosted engine\'s error summaries are checked under C11.',
 		'DESIGN.md §4 C16')
+	claim('C12', 'exploration', 'runtime monitoring: the real grammar engine run on its own meta-grammar, on both shipped grammars through the real tool code, and on generated rule sets (print -> parse -> rebuild, sentence-level agreement)',
+		'Every run re-derives the built-in rules from gram.lark, recompiles both shipped grammars with gram_check.App.render_rules and compares with the checked-in modules (as Python modules and as executed rule sets), then round-trips thousands of generated canonical rule sets through pretty/parse/from_ast with exact structural comparison and checks that original and reparsed rules give the same trees or the same rejection on derived and mutated sentences.',
+		'Trusted: the structural comparator (Pattern defines no __eq__) and the sentence deriver in vf/props/c12.py. Generated rule sets avoid in-place recursion / nullable repeats (engine would not terminate; generator bound).',
+		'DESIGN.md §4 C12')
